@@ -25,7 +25,7 @@ from root_lib import PROJECT as R_PROJECT
 PROP = "C08"
 MODEL_FILES = ["model/Base.v", "model/ModNames.v", "model/Str.v", "model/PyAst.v", "model/Naming.v", "model/Context.v", "model/CallSwaps.v",
                "model/FuncAn.v", "spec/FaCheck.v", "spec/Occurs.v", "spec/CallSpec.v", "spec/Binding.v", "spec/FaSpecCheck.v", "spec/Scoping.v"] + root_run.MODEL_FILES[4:]
-PROOF_FILES = ["proofs/C08Proofs.v", "proofs/C08Member.v", "proofs/RootProofs.v", "props/C08.v"]
+PROOF_FILES = ["proofs/C08Proofs.v", "proofs/C08Member.v", "proofs/RootProofs.v", "proofs/C08Module.v", "props/C08.v"]
 
 MOD_IMP = ("def mfunc(z):\n    return z.attr_mfunc\n\ndef ifunc(z):\n    return z.attr_ifunc\n\ndef gfunc(z):\n    return z.attr_mod_gfunc\n\n"
            "class GCls:\n    def __init__(self, z, extra=None):\n        self.h = z.attr_mod_GCls\n\n    @staticmethod\n    def make(z):\n        return z.attr_mod_make\n\n"
